@@ -297,11 +297,32 @@ func execC08(seg []Ev) []Ev {
 			}
 			hm := map[string]func(float64) float64{"acos": math.Acos, "asin": math.Asin, "atan": math.Atan, "exp": math.Exp, "log": math.Log, "ln": math.Log, "log10": math.Log10,
 				"ceil": math.Ceil, "ceiling": math.Ceil, "floor": math.Floor, "round": math.Round, "cos": math.Cos, "sin": math.Sin, "tan": math.Tan, "sqr": math.Sqrt, "sqrt": math.Sqrt}
-			if f, ok := hm[strings.ToLower(name)]; ok && isNum && (mgr == "unsafe" || args[0].Type() != variants.Long || true) {
-				e["hostmath"] = valJSON(variants.VariantFromDouble(f(x)))["s"]
+			// the host's value, written in the numeric type the function answered with (the rounding functions: any numeric type)
+			inType := func(v float64) any {
+				if oc == "value" && r != nil {
+					switch r.Type() {
+					case variants.Integer, variants.Long:
+						if math.IsNaN(v) || math.Abs(v) >= 9e18 {
+							return "none"
+						}
+						return strconv.FormatInt(int64(v), 10)
+					case variants.Float:
+						return valJSON(variants.VariantFromFloat(float32(v)))["s"]
+					}
+				}
+				return valJSON(variants.VariantFromDouble(v))["s"]
 			}
-			if lname := strings.ToLower(name); (lname == "trunc" || lname == "truncate") && isNum && !math.IsNaN(x) && math.Abs(x) < 9e18 {
-				e["hostmath"] = strconv.FormatInt(int64(math.Trunc(x)), 10)
+			lname := strings.ToLower(name)
+			rounding := map[string]bool{"ceil": true, "ceiling": true, "floor": true, "round": true}
+			if f, ok := hm[lname]; ok && isNum {
+				if rounding[lname] {
+					e["hostmath"] = inType(f(x))
+				} else {
+					e["hostmath"] = valJSON(variants.VariantFromDouble(f(x)))["s"]
+				}
+			}
+			if (lname == "trunc" || lname == "truncate") && isNum && !math.IsNaN(x) && (math.Abs(x) < 9e18 || (oc == "value" && r != nil && (r.Type() == variants.Double || r.Type() == variants.Float))) {
+				e["hostmath"] = inType(math.Trunc(x))
 			}
 		}
 		// a result is the caller's to change: the next call must not be affected (deterministic functions only)
